@@ -163,6 +163,9 @@ func (s *fakeTLSServer) serve(conn net.Conn, behavior string) {
 				// inside TLS this server only speaks HELO: the client must end up with NO extensions,
 				// not with the ones it heard in plaintext
 				io.WriteString(conn, "502 5.5.1 EHLO not implemented here\r\n")
+			case inTLS && behavior == "tls-ehlo-bare":
+				// inside TLS the server greets with a single line: it offers NO extension at all
+				io.WriteString(conn, "250 fake.example\r\n")
 			case inTLS:
 				// the TLS capability list deliberately differs from anything said in plaintext
 				io.WriteString(conn, "250-fake.example\r\n250-8BITMIME\r\n250-AUTH TLSONLY\r\n250 SIZE 4242\r\n")
@@ -344,11 +347,11 @@ func evalC10Client(c C10ClientCase) (f *h.Finding) {
 	if bytes.Contains(srv.afterGarbage, []byte("secret")) || bytes.Contains(srv.afterGarbage, []byte("MAIL FROM")) {
 		return h.F("c10-plaintext-leak", "%s: after a garbled handshake the client sent %q in the clear", desc, srv.afterGarbage)
 	}
-	if c.Behavior == "tls-ehlo-refused" {
+	if c.Behavior == "tls-ehlo-refused" || c.Behavior == "tls-ehlo-bare" {
 		// the upgrade works, the renegotiated hello falls back to HELO: no capability may survive
 		joined := strings.Join(srv.tlsLines, "")
 		if haveClient && (authCaps != "" || sizeSeen != 0) {
-			return h.F("c10-plaintext-capabilities-trusted", "%s: inside TLS the server only accepted HELO, yet the client reports AUTH %q and SIZE %d (heard in plaintext)", desc, authCaps, sizeSeen)
+			return h.F("c10-plaintext-capabilities-trusted", "%s: inside TLS the server offered no extension (HELO only / a bare 250), yet the client reports AUTH %q and SIZE %d (heard in plaintext)", desc, authCaps, sizeSeen)
 		}
 		if strings.Contains(joined, "AUTH ") || strings.Contains(joined, "BODY=") || strings.Contains(joined, "SIZE=") {
 			return h.F("c10-plaintext-capabilities-trusted", "%s: the client used extensions it only heard about in plaintext: %q", desc, srv.tlsLines)
@@ -403,7 +406,7 @@ func C10(tier string) int {
 	injects := []string{"", "MAIL FROM:<okinject@x.example>\r\n", "RCPT TO:<okinject@x.example>\r\n", "EHLO evil.example\r\nMAIL FROM:<okinject@x.example>\r\nRCPT TO:<okinject@y.example>\r\n", "RSET\r\nNOOP\r\n", "BDAT 5 LAST\r\ninject",
 		// no line break at all, just under the line limit: not even the line COUNTER may cross into the TLS session
 		strings.Repeat("i", 1985)}
-	run.Rule = fmt.Sprintf("SERVER: phase 1 - the C03 breadth-first search (alphabet without STARTTLS) collects one shortest history for EVERY reachable pre-STARTTLS state (greeted, authenticated, mid-transaction, mid-BDAT, after errors ...) of %d configuration(s); phase 2 - for every such state x injected plaintext %q x {same segment as STARTTLS, own segment before the ClientHello}: STARTTLS, real TLS handshake, then %d probe commands inside TLS (MAIL/RCPT/DATA/BDAT/AUTH before the new EHLO, EHLO, STARTTLS again, AUTH twice, a full transaction), every step compared with the reference model (old session: Logout and no Reset; nothing remembered; NewSession of the new EHLO sees TLS and the new name; AUTH state gone; envelope gone) plus: no injected command is ever executed once TLS is up. CLIENT: entry points {NewClientStartTLS (in-memory), DialStartTLS, SendMail (loopback)} x scripted server behaviours {good, no STARTTLS keyword, EHLO refused -> HELO fallback, 454, 220 then garbage, 220 with an untrusted certificate, 220 with injected plaintext replies behind it then a good handshake, good handshake after which EHLO is refused and only HELO accepted} x {with, without SASL client}: raw octets before the handshake contain only EHLO/HELO/STARTTLS/QUIT, the first line inside TLS is EHLO and ITS capability list is used, every bad case returns an error. states = pre-STARTTLS states; transitions = conversations.", len(cfgs), injects, len(c10Probes))
+	run.Rule = fmt.Sprintf("SERVER: phase 1 - the C03 breadth-first search (alphabet without STARTTLS) collects one shortest history for EVERY reachable pre-STARTTLS state (greeted, authenticated, mid-transaction, mid-BDAT, after errors ...) of %d configuration(s); phase 2 - for every such state x injected plaintext %q x {same segment as STARTTLS, own segment before the ClientHello}: STARTTLS, real TLS handshake, then %d probe commands inside TLS (MAIL/RCPT/DATA/BDAT/AUTH before the new EHLO, EHLO, STARTTLS again, AUTH twice, a full transaction), every step compared with the reference model (old session: Logout and no Reset; nothing remembered; NewSession of the new EHLO sees TLS and the new name; AUTH state gone; envelope gone) plus: no injected command is ever executed once TLS is up. CLIENT: entry points {NewClientStartTLS (in-memory), DialStartTLS, SendMail (loopback)} x scripted server behaviours {good, no STARTTLS keyword, EHLO refused -> HELO fallback, 454, 220 then garbage, 220 with an untrusted certificate, 220 with injected plaintext replies behind it then a good handshake, good handshake after which EHLO is refused and only HELO accepted, good handshake after which EHLO is answered by a bare 250 line} x {with, without SASL client}: raw octets before the handshake contain only EHLO/HELO/STARTTLS/QUIT, the first line inside TLS is EHLO and ITS capability list is used, every bad case returns an error. states = pre-STARTTLS states; transitions = conversations.", len(cfgs), injects, len(c10Probes))
 	run.Assumptions = []string{"plaintext put on the wire between the 220 reply and the ClientHello makes the handshake fail (no TLS session exists); what the server does with a failed handshake is not judged", "loopback TCP is used for DialStartTLS/SendMail (they insist on dialling), outside synctest bubbles"}
 	t0 := time.Now()
 	for _, pc := range cfgs {
@@ -457,7 +460,7 @@ func C10(tier string) int {
 	// client half
 	var ccases []C10ClientCase
 	for _, e := range []string{"NewClientStartTLS", "DialStartTLS", "SendMail"} {
-		for _, b := range []string{"good", "no-starttls", "ehlo-refused", "454", "220-garbage", "220-untrusted", "220-inject", "tls-ehlo-refused"} {
+		for _, b := range []string{"good", "no-starttls", "ehlo-refused", "454", "220-garbage", "220-untrusted", "220-inject", "tls-ehlo-refused", "tls-ehlo-bare"} {
 			for _, a := range []bool{false, true} {
 				ccases = append(ccases, C10ClientCase{Entry: e, Behavior: b, Auth: a})
 			}
